@@ -173,7 +173,19 @@ def run(ctx, drv):
                 s = gen_sol(rng, p, n, eps, constrained, lattice, near=prev)
             sols.append(s); prev = s
         plain = k % 5 == 4
-        arch = C.Archive(C.EpsilonDominance(list(eps))) if plain else C.EpsilonBoxArchive(list(eps))
+        # the archive as a user gets it: built directly, or built by an algorithm's constructor from its `epsilons` argument
+        src = rng.choice(["direct", "direct", "algorithm"])
+        if src == "algorithm":
+            from platypus import algorithms as A_
+            mk = rng.choice([lambda: A_.CMAES(p, epsilons=list(eps)).archive, lambda: A_.OMOPSO(p, list(eps)).archive] if plain else
+                            [lambda: A_.EpsMOEA(p, list(eps)).archive, lambda: A_.EpsNSGAII(p, list(eps)).archive])
+            arch = call(mk)
+            if isinstance(arch, str) or arch is None:
+                ctx.fail("algorithm-constructor-raises", {"epsilons": eps, "nobjs": n}, arch, "an algorithm with an epsilon archive", "algorithms (epsilons argument)")
+                continue
+            ctx.count("archives_built_by_algorithm_constructors")
+        else:
+            arch = C.Archive(C.EpsilonDominance(list(eps))) if plain else C.EpsilonBoxArchive(list(eps))
         ids = Ids()
         trace, before_states = [], []
         for s in sols:
@@ -182,7 +194,7 @@ def run(ctx, drv):
             trace.append((fl, [ids(m) for m in arch._contents], getattr(arch, "improvements", None)))
         for s in sols:
             ids(s)
-        inp = {"maximise": list(dirs), "constrained": constrained, "epsilons": eps, "archive": "Archive(EpsilonDominance)" if plain else "EpsilonBoxArchive",
+        inp = {"maximise": list(dirs), "constrained": constrained, "epsilons": eps, "archive": ("Archive(EpsilonDominance)" if plain else "EpsilonBoxArchive") + f" [{src}]",
                "history": [[list(s.objectives), s.constraint_violation, ids(s)] for s in sols]}
         if any(isinstance(t[0], str) for t in trace):
             ctx.fail("add-raises", inp, [t[0] for t in trace if isinstance(t[0], str)][0], "True/False", "core.EpsilonBoxArchive.add")
